@@ -128,6 +128,54 @@ namespace
   };
 
   // ---------------------------------------------------------------------------------------------
+  // analytic function whose evaluator keeps scratch state between a store and a use, with a scheduling point in between -
+  // like Analytic::ParsedScalarFunction, whose evaluator copies the point into a member and owns a private parser. The
+  // function interface promises one evaluator per task; a job that shares one between its tasks integrates f at the point
+  // of another thread.
+  template<int dim_>
+  class ScratchFunction : public Analytic::Function
+  {
+  public:
+    static constexpr int domain_dim = dim_;
+    typedef Analytic::Image::Scalar ImageType;
+    static constexpr bool can_value = true;
+    static constexpr bool can_grad = true;
+    static constexpr bool can_hess = false;
+
+    template<typename EvalTraits_>
+    class Evaluator : public Analytic::Function::Evaluator<EvalTraits_>
+    {
+    public:
+      typedef typename EvalTraits_::DataType DataType;
+      typedef typename EvalTraits_::PointType PointType;
+      typedef typename EvalTraits_::ValueType ValueType;
+      typedef typename EvalTraits_::GradientType GradientType;
+      typedef typename EvalTraits_::HessianType HessianType;
+    private:
+      PointType _scratch;
+    public:
+      explicit Evaluator(const ScratchFunction&) {}
+      ValueType value(const PointType& point)
+      {
+        _scratch = point;
+        sim::yield("evaluator");
+        DataType v = DataType(1);
+        for(int i = 0; i < dim_; ++i) v += DataType(i + 2) * _scratch[i] * _scratch[i];
+        return v;
+      }
+      GradientType gradient(const PointType& point)
+      {
+        _scratch = point;
+        sim::yield("evaluator");
+        GradientType g;
+        for(int i = 0; i < dim_; ++i) g[i] = DataType(2 * (i + 2)) * _scratch[i];
+        return g;
+      }
+      HessianType hessian(const PointType&) { return HessianType::null(); }
+    };
+  };
+
+  // ---------------------------------------------------------------------------------------------
   // integer-valued probe job: scatter adds a cell weight to every vertex of the cell, combine sums a local counter
   template<typename Mesh_, bool scat_, bool comb_>
   struct ProbeJob
@@ -423,8 +471,8 @@ namespace
           break;
         case 3: // real linear functional (force) into a DenseVector
           {
-            Analytic::Common::SineBubbleFunction<dim> func;
-            Assembly::Common::ForceFunctional<Analytic::Common::SineBubbleFunction<dim>> functional(func);
+            ScratchFunction<dim> func;
+            Assembly::Common::ForceFunctional<ScratchFunction<dim>> functional(func);
             typedef Assembly::LinearFunctionalAssemblyJob<decltype(functional), VectorType, SpaceType> JobType;
             VectorType v(space.get_num_dofs(), 0.0), rv(space.get_num_dofs(), 0.0);
             JobType job(functional, v, space, "auto-degree:2", 1.0), rjob(functional, rv, space, "auto-degree:2", 1.0);
@@ -452,8 +500,8 @@ namespace
         case 5: // real function integral (no scatter, combine under the mutex)
           {
             scat = false;
-            Analytic::Common::SineBubbleFunction<dim> func;
-            typedef Assembly::AnalyticFunctionIntegralJob<double, Analytic::Common::SineBubbleFunction<dim>, TrafoType, 1> JobType;
+            ScratchFunction<dim> func;
+            typedef Assembly::AnalyticFunctionIntegralJob<double, ScratchFunction<dim>, TrafoType, 1> JobType;
             JobType job(func, trafo, "auto-degree:3"), rjob(func, trafo, "auto-degree:3");
             Wrap<JobType> w(job);
             da.assemble(w);
@@ -465,8 +513,8 @@ namespace
           break;
         case 7: // force functional (analytic function itself as the force) into a DenseVector
           {
-            Analytic::Common::SineBubbleFunction<dim> func;
-            typedef Assembly::ForceFunctionalAssemblyJob<Analytic::Common::SineBubbleFunction<dim>, VectorType, SpaceType> JobType;
+            ScratchFunction<dim> func;
+            typedef Assembly::ForceFunctionalAssemblyJob<ScratchFunction<dim>, VectorType, SpaceType> JobType;
             VectorType v(space.get_num_dofs(), 0.0), rv(space.get_num_dofs(), 0.0);
             JobType job(func, v, space, "auto-degree:2", 0.5), rjob(func, rv, space, "auto-degree:2", 0.5);
             Wrap<JobType> w(job);
@@ -493,10 +541,10 @@ namespace
         case 9: // error integral of a discrete function (no scatter, combine under the mutex)
           {
             scat = false;
-            Analytic::Common::SineBubbleFunction<dim> func;
+            ScratchFunction<dim> func;
             VectorType uh(space.get_num_dofs());
             for(Index i = 0; i < uh.size(); ++i) uh(i, double((i * 37u) % 11u) * 0.125 - 0.5);
-            typedef Assembly::ErrorFunctionIntegralJob<Analytic::Common::SineBubbleFunction<dim>, VectorType, SpaceType, 1> JobType;
+            typedef Assembly::ErrorFunctionIntegralJob<ScratchFunction<dim>, VectorType, SpaceType, 1> JobType;
             JobType job(func, uh, space, "auto-degree:3"), rjob(func, uh, space, "auto-degree:3");
             Wrap<JobType> w(job);
             da.assemble(w);
@@ -508,10 +556,10 @@ namespace
           break;
         case 10: // cell-wise error integral: scatter writes the cell's own entry, combine adds the total
           {
-            Analytic::Common::SineBubbleFunction<dim> func;
+            ScratchFunction<dim> func;
             VectorType uh(space.get_num_dofs());
             for(Index i = 0; i < uh.size(); ++i) uh(i, double((i * 29u) % 13u) * 0.125 - 0.75);
-            typedef Assembly::CellErrorFunctionIntegralJob<Analytic::Common::SineBubbleFunction<dim>, VectorType, SpaceType, 0> JobType;
+            typedef Assembly::CellErrorFunctionIntegralJob<ScratchFunction<dim>, VectorType, SpaceType, 0> JobType;
             JobType job(func, uh, space, "auto-degree:3"), rjob(func, uh, space, "auto-degree:3");
             Wrap<JobType> w(job);
             da.assemble(w);
